@@ -52,7 +52,7 @@ add("prune-wrong-key","C19","object_validator.go","\t\t\t\tres.mergeForField(dat
 # C20
 add("nil-operand-ends-merge","C20","result.go","func (r *Result) MergeAsWarnings(others ...*Result) *Result {\n\tfor _, other := range others {\n\t\tif other != nil {","func (r *Result) MergeAsWarnings(others ...*Result) *Result {\n\tfor _, other := range others {\n\t\tif other == nil {\n\t\t\treturn r\n\t\t}\n\t\tif other != nil {","RESULT-ALGEBRA:(*Result).MergeAsWarnings:all-operands")
 # C09
-add("tuple-members-share-path","C09","example_validator.go",'fmt.Sprintf("%s.items[%d].example", path, i)','path+".items.example"',"TRAVERSE:exampleValidator.validateExampleValueSchemaAgainstSchema:recursion:Items.Schemas:path")
+add("tuple-members-share-path","C09","example_validator.go",'fmt.Sprintf("%s.items[%d].example", path, i)','fmt.Sprintf("%s.items[%d].example", path, 0*i)',"TRAVERSE:exampleValidator.validateExampleValueSchemaAgainstSchema:recursion:Items.Schemas:path")
 add("visited-set-shared-by-definitions","C09","default_validator.go","\t\t\td.resetVisited()\n\n\t\t\t// validation lazily expands","\t\t\t// validation lazily expands","RESET-BETWEEN:(*defaultValidator).validateDefaultValueValidAgainstSchema", quick=False)
 # C01
 add("format-exempts-from-type","C01","type.go","\tif len(t.Type) == 0 && t.Format != \"\" && (kind == reflect.String || kind == reflect.Slice) {","\tif t.Format != \"\" && (kind == reflect.String || kind == reflect.Slice) {","TYPE-TABLE:typeValidator:draft4", quick=False)
